@@ -412,6 +412,8 @@ def b_list(interp, argv, kwv, fr):
         return v            # list(<generator>): the same elements, each once, in the generator's (unspecified) order
     if v.kind == 'row':
         return _row_bag(v)  # list(self._adj[n]): the keys of the row, each once
+    if v.kind == 'opaque' and v.tag == 'result':
+        return VOpaque(v.z, 'result')       # list(<result of an observed call>): the same elements (forwarding contracts)
     items = interp.static_items(v)
     if items is not None:
         return VList(items)
